@@ -66,8 +66,10 @@ INTERRUPTIBLE = ('q', 'dwc', 'list_t', 'list_c', 'step', 'exhaustive',
 # --------------------------------------------------------------------------
 # generation
 # --------------------------------------------------------------------------
-def _gen_panel(rng, tier, profile, stress=False, wide=False):
-  if wide:
+def _gen_panel(rng, tier, profile, stress=False, wide=False, nine=False):
+  if nine:
+    n_geos = rng.choice((9, 10))
+  elif wide:
     # beyond platform thresholds (64-bit masks, 128/256-entry caches): many
     # geos, nearly all of them fixed by the eligibility table so that the
     # design space stays small
@@ -127,7 +129,12 @@ def _gen_panel(rng, tier, profile, stress=False, wide=False):
           'row_order_seed': rng.randrange(10**6)}
 
 
-def _gen_elig(rng, panel, stress=False, wide=False):
+def _gen_elig(rng, panel, stress=False, wide=False, nine=False):
+  if nine:
+    geos = list(panel['geos'])
+    trt = set(rng.sample(range(len(geos)), 3))
+    return [[g] + list(ROW_TYPES['tx' if i in trt else 'cx'])
+            for i, g in enumerate(geos)]
   if wide:
     geos = list(panel['geos'])
     # the free geos are among the smallest as well as the largest, so that
@@ -204,6 +211,8 @@ def _gen_par(rng, panel, profile, stress=False):
       par['n_designs'] = rng.choice((256, 257, 300))   # beyond 256
   elif maybe(0.7):
     par['n_designs'] = rng.choice((1, 2, 3, 5, 8))
+  if 'n_designs' in par and maybe(0.15):
+    par['n_designs'] = float(par['n_designs'])   # integral float: accepted
   if maybe(0.15):
     par['sig_level'] = rng.choice((0.8, 0.95))
   if maybe(0.15):
@@ -356,12 +365,23 @@ def generate(rng, tier, profile='faultfree'):
   # n_geos_max, budget / share ranges, mixed eligibility, impact ranking
   # different from the volume ranking) instead of drawing them independently
   stress = profile != 'c14' and rng.random() < 0.25
-  wide = rng.random() < 0.04
-  panel = _gen_panel(rng, tier, profile, stress, wide)
-  elig = _gen_elig(rng, panel, stress, wide)
-  par = _gen_par(rng, panel, profile, stress and not wide)
-  if wide:
+  r_shape = rng.random()
+  wide = r_shape < 0.04
+  nine = 0.04 <= r_shape < 0.10
+  panel = _gen_panel(rng, tier, profile, stress, wide, nine)
+  elig = _gen_elig(rng, panel, stress, wide, nine)
+  par = _gen_par(rng, panel, profile, stress and not (wide or nine))
+  if wide or nine:
     par.pop('n_geos_max', None)
+  if nine:
+    # groups of 3-4 geos out of 9-10: index sets whose iteration order is not
+    # ascending (hash collisions in an 8-slot table) and float sums that round
+    par['treatment_geos_range'] = rng.choice(([1, 1], [1, 2]))
+    par['control_geos_range'] = rng.choice(([3, 3], [3, 4], [3, 4]))
+    par['n_designs'] = rng.choice((8, 8, 50))
+    for k in ('geo_ratio_tolerance', 'volume_ratio_tolerance',
+              'treatment_share_range', 'budget_range'):
+      par.pop(k, None)
   sibling_par = None
   if profile != 'c14' and rng.random() < 0.04:
     # an earlier tenant of the process with "hash twin" levels: parameters
@@ -374,7 +394,7 @@ def generate(rng, tier, profile='faultfree'):
     par[which] = a
     sibling_par = {which: b}
   ops, enabled = _gen_ops(rng, tier, profile, len(panel['geos']))
-  if wide:
+  if wide or nine:
     # both kinds of search on the one object, whatever else happens
     for kind in ('exhaustive', 'greedy'):
       if not any(op['op'] == kind for op in ops):
@@ -800,7 +820,7 @@ def execute(desc):
 
   def check_search_list(step, kind, raw, pushed):
     """C14 S1-S3 on a list returned by a search or a retrieval."""
-    n_designs = par_base['n_designs']
+    n_designs = int(par_base['n_designs'])
     if isinstance(raw, tuple):
       raw = list(raw)
     if not isinstance(raw, list):
